@@ -80,23 +80,29 @@ Definition rot_names : list string := map fst elim_rules.
 Definition mkcfg (raw1 raw2 : list string) : cfg :=
   Cfg (filter (fun n => mem n raw2) basis_2q_valid) (filter (fun n => mem n raw1) rot_names) (Nat.eqb (List.length raw1) 2).
 
-(* [listified]: the string branch rebinds basis = [basis], so that `gate.name in basis` is list membership (true);
-   otherwise it stays a Python substring test on the string (false) *)
-Definition parse_basis_gen (listified : bool) (b : basis_spec) : result (cfg * (string -> bool)) :=
+(* structural variants of the parsing code, read off the source by the translator:
+   [f_listified]: the string branch rebinds basis = [basis], so that `gate.name in basis` is list membership (true);
+                  otherwise it stays a Python substring test on the string (false)
+   [f_rotnorm]:   the list branch reduces basis_1q to [g for g in rot_norm_list if g in basis_1q] before counting (true),
+                  so that IDLE and repeated entries are not counted as rotations *)
+Record pflags := PF { f_listified : bool; f_rotnorm : bool }.
+Definition parse_basis_gen (fl : pflags) (b : basis_spec) : result (cfg * (string -> bool)) :=
   match b with
   | BList l =>
       let raw2 := filter (fun g => mem g basis_2q_valid) l in
-      let raw1 := filter (fun g => negb (mem g basis_2q_valid) && mem g basis_1q_valid) l in
+      let raw0 := filter (fun g => negb (mem g basis_2q_valid) && mem g basis_1q_valid) l in
+      let raw1 := if f_rotnorm fl then filter (fun g => mem g raw0) rot_norm_list else raw0 in
       if Nat.eqb (List.length raw1) 1 then Error                                       (* ValueError *)
       else let raw1' := if Nat.eqb (List.length raw1) 0 then default_1q_list else raw1 in
            Ok (mkcfg raw1' raw2, fun n => mem n l)                         (* `gate.name in basis`, basis a list *)
   | BStr s =>
       if mem s basis_2q_valid
       then Ok (mkcfg default_1q_str [s],
-               if listified then (fun n => mem n [s]) else (fun n => substrb n s))
+               if f_listified fl then (fun n => mem n [s]) else (fun n => substrb n s))
       else Error                                                           (* ValueError *)
   end.
-Definition parse_basis : basis_spec -> result (cfg * (string -> bool)) := parse_basis_gen str_basis_listified.
+Definition cur_flags : pflags := PF str_basis_listified rot_normalised.
+Definition parse_basis : basis_spec -> result (cfg * (string -> bool)) := parse_basis_gen cur_flags.
 
 (* ---- stage 1: X/Y/Z substitution and _resolve_to_universal ------------------------------------------------------- *)
 Definition find_rule (nm : string) : option rule :=
@@ -128,6 +134,14 @@ Definition stage2 (c : cfg) (l : list mgate) : result (list mgate) :=
   | None => Ok l
   end.
 
+(* the same with the precedence list of the passes as a parameter (to speak about other orders than the coded one) *)
+Definition first_2q_o (order : list string) (c : cfg) : option string := find (fun u => mem u (c2q c)) order.
+Definition stage2_o (order : list string) (c : cfg) (l : list mgate) : result (list mgate) :=
+  match first_2q_o order c with
+  | Some u => match assoc u basis_passes with Some br => rflat (pass_gate br) l | None => Error end
+  | None => Ok l
+  end.
+
 (* ---- stage 3: elimination of the rotation that is not in a two-rotation basis ------------------------------------ *)
 Definition elim_gate (c : cfg) (g : mgate) : result (list mgate) :=
   match assoc (gname g) elim_rules with
@@ -140,18 +154,20 @@ Definition stage3 (c : cfg) (l : list mgate) : result (list mgate) :=
 (* ---- resolve_gates ----------------------------------------------------------------------------------------------- *)
 (* [to_temp]: the Pauli phase markers are appended to temp_resolved (true) or to qc_temp.gates (false).  In the latter
    case they end up in front of the two-qubit pass output, and are LOST when no pass runs (qc_temp.gates = temp_resolved). *)
-Definition resolve_gen (to_temp listified : bool) (b : basis_spec) (circ : list mgate) : result (list mgate) :=
-  rbind (parse_basis_gen listified b) (fun ck =>
+Definition resolve_gen (to_temp : bool) (fl : pflags) (order : list string) (b : basis_spec) (circ : list mgate)
+  : result (list mgate) :=
+  rbind (parse_basis_gen fl b) (fun ck =>
   let c := fst ck in
   rbind (rmapM (stage1 c (snd ck)) circ) (fun parts =>
   let temp := concat (map (fun p => ((if to_temp then fst p else []) ++ snd p)%list) parts) in
   let markers := if to_temp then [] else concat (map fst parts) in
-  rbind (match first_2q c with
-         | Some _ => rbind (stage2 c temp) (fun q => Ok (markers ++ q)%list)
+  rbind (match first_2q_o order c with
+         | Some _ => rbind (stage2_o order c temp) (fun q => Ok (markers ++ q)%list)
          | None => Ok temp
          end) (fun qc => stage3 c qc))).
-(* the code that exists: both structural flags are read off the source by the translator *)
-Definition resolve : basis_spec -> list mgate -> result (list mgate) := resolve_gen pauli_marker_to_temp str_basis_listified.
+(* the code that exists: the structural flags and the pass order are read off the source by the translator *)
+Definition resolve : basis_spec -> list mgate -> result (list mgate) :=
+  resolve_gen pauli_marker_to_temp cur_flags basis_2q_order.
 
 (* circuits may also contain measurements: resolve_gates refuses them *)
 Inductive op := OpGate (g : mgate) | OpMeasure.
@@ -190,11 +206,12 @@ Fixpoint sublists {A} (l : list A) : list (list A) :=
   match l with [] => [[]] | a :: l' => (map (cons a) (sublists l') ++ sublists l')%list end.
 Definition all_cfgs : list cfg :=
   flat_map (fun q => flat_map (fun r => [Cfg q r true; Cfg q r false]) (sublists rot_names)) (sublists basis_2q_valid).
-(* the valid choices of the property: at least one two-qubit gate, not both CSIGN and ISWAP (see resolve_in_basis),
-   at least two rotations, and basis_1q consists of exactly these rotations (no IDLE entry, no duplicates) *)
-Definition valid_cfg (c : cfg) : bool :=
-  negb (Nat.eqb (List.length (c2q c)) 0) && negb (mem "CSIGN" (c2q c) && mem "ISWAP" (c2q c)) &&
+(* the valid choices of the property: at least one two-qubit gate and a consistent rotation part (at least two rotations,
+   elimination exactly when there are two); every configuration the parser produces has a consistent rotation part
+   (Proofs/ResolveSem.v parse_rot_ok), so for accepted requests this only asks for a two-qubit gate *)
+Definition rot_ok (c : cfg) : bool :=
   (Nat.leb 2 (List.length (crot c))) && Bool.eqb (celim c) (Nat.eqb (List.length (crot c)) 2).
+Definition valid_cfg (c : cfg) : bool := negb (Nat.eqb (List.length (c2q c)) 0) && rot_ok c.
 
 (* output-side predicate of the property: the gate is in the requested basis or a phase / idle marker *)
 Definition in_basis (c : cfg) (g : mgate) : bool :=
